@@ -145,9 +145,50 @@ func rulesC20(c *Ctx) {
 					}
 				}
 			}
+			// ... and if it answers only for the very session and stream it was filled for: every use of it outside
+			// SessionClosed sits behind comparisons that mention both the session id and the stream id the caller asked for
+			keyedByBoth := true
+			if droppedOnClose {
+				for _, f := range c.funcsWithLits(pM) {
+					r := f.Root()
+					if r.Recv() == nil || namedOf(r.Recv().Type()) != mes || r.Obj == nil || r.Obj.Name() == "SessionClosed" {
+						continue
+					}
+					var strParams []*types.Var
+					for _, p := range r.NonRecvParams() {
+						if b, isB := p.Type().Underlying().(*types.Basic); isB && b.Kind() == types.String {
+							strParams = append(strParams, p)
+						}
+					}
+					fg := f.Graph()
+					for _, sel := range f.FieldRefs(f.Body, fld, false) {
+						// writes (re-filling the cache) are not uses
+						isWrite := false
+						for _, w := range Writes(f.Body, false) {
+							if encloses(w.LHS, sel) {
+								isWrite = true
+							}
+						}
+						// the tests themselves are not uses either
+						if isWrite || fg.isCondition(sel) {
+							continue
+						}
+						if len(strParams) < 2 {
+							keyedByBoth = false
+							continue
+						}
+						gs := fg.GuardsAt(fg.VertexOf(sel))
+						for _, p := range strParams[:2] {
+							if !hasAtom(gs, func(a Atom) bool { return a.Val && f.Mentions(a.E, p) }) {
+								keyedByBoth = false
+							}
+						}
+					}
+				}
+			}
 			if k >= 2 {
 				c.add(c.rule, "list-reference:"+fld.Name(), c.P.Rel(fld.Pos()), vOK, "the session → stream → list table")
-			} else if droppedOnClose {
+			} else if droppedOnClose && keyedByBoth {
 				c.add(c.rule, "list-reference:"+fld.Name(), c.P.Rel(fld.Pos()), vOK, "a second reference to a list that SessionClosed resets")
 			} else {
 				c.add(c.rule, "list-reference:"+fld.Name(), c.P.Rel(fld.Pos()), vViolation, "MemoryEventStore."+fld.Name()+" holds a list outside the session → stream table: it is not removed by SessionClosed and is not keyed by the session")
@@ -410,6 +451,33 @@ func rulesC20(c *Ctx) {
 		// ... on every path: a session that retains no byte (everything evicted, or only opened) is forgotten like any other
 		if delV >= 0 {
 			okAll, p := sg.MustPassIncl(sg.Entry, sg.Exits, func(v int) bool { return v == delV })
+			if !okAll {
+				// `if sd, ok := s.store[id]; ok { …; delete(s.store, id) }`: with the session present (the comma-ok of a lookup
+				// in the table is true) every way out passes the delete
+				present := func(e ast.Expr) tri {
+					o := sc.ObjOf(e)
+					if o == nil {
+						return triUnknown
+					}
+					for _, w := range Writes(sc.Body, false) {
+						as, isAs := w.Stmt.(*ast.AssignStmt)
+						if !isAs || len(as.Lhs) != 2 || len(as.Rhs) != 1 || sc.ObjOf(as.Lhs[1]) != o {
+							continue
+						}
+						if m, _, isIx := indexOf(as.Rhs[0]); isIx && sc.IsField(m, storeF) {
+							return triTrue
+						}
+					}
+					return triUnknown
+				}
+				avoid := sg.ReachUnder(present, func(v int) bool { return v == delV })
+				okAll = true
+				for _, x := range sg.Exits {
+					if avoid[x] && x != delV {
+						okAll = false
+					}
+				}
+			}
 			c.Check(okAll, "SessionClosed:always-forgets-the-session", sc, sg.Node(delV), "every path through SessionClosed deletes the session's entry (an early return for \"nothing to free\" keeps its streams and ids alive) %s", sg.PathString(p))
 		}
 	})
@@ -439,7 +507,15 @@ func rulesC20(c *Ctx) {
 		}
 		c.Need(start != nil, "After: start offset")
 		ePurged := c.Obj(pM, "ErrEventsPurged")
-		var purgedRet, emptyRet, dataRet *ast.ReturnStmt
+		var purgedRet *ast.ReturnStmt
+		// an answer is what an error-free return hands out and where that was decided: the return itself, or — when the
+		// result travels through a local (`ds = …; …; return ds, nil`, the shape an expanded helper leaves) — each assignment
+		// of that local that reaches the return
+		type answer struct {
+			val ast.Expr
+			at  ast.Node
+		}
+		var answers []answer
 		for _, r := range cp.Returns() {
 			if len(r.Results) != 2 {
 				continue
@@ -454,34 +530,71 @@ func rulesC20(c *Ctx) {
 					purgedRet = r
 				}
 			}
-			if isNilIdent(r.Results[0]) && isNilIdent(r.Results[1]) {
-				// start >= len(data), in any spelling: len(data) - (index + 1 - first) <= 0
-				if cp.hasLinAtom(guards, token.LEQ, -1, map[string]int64{"len(dataList.data)": 1, "param(int)": -1, "dataList.first": 1}) {
-					emptyRet = r
+			if !isNilIdent(r.Results[1]) {
+				continue
+			}
+			viaLocal := false
+			if lv, isV := cp.ObjOf(r.Results[0]).(*types.Var); isV && !lv.IsField() && !isNilIdent(r.Results[0]) {
+				rv := g.VertexOf(r)
+				for _, w := range Writes(cp.Body, false) {
+					if cp.ObjOf(w.LHS) != types.Object(lv) {
+						continue
+					}
+					if _, isVS := w.Stmt.(*ast.ValueSpec); isVS && w.RHS == nil {
+						continue
+					}
+					val := w.RHS
+					if val == nil {
+						if as, isAs := w.Stmt.(*ast.AssignStmt); isAs && len(as.Lhs) == len(as.Rhs) {
+							for i, l := range as.Lhs {
+								if l == w.LHS {
+									val = as.Rhs[i]
+								}
+							}
+						}
+					}
+					wv := g.VertexOf(w.Stmt)
+					if val == nil || !(g.ReachableFrom(wv)[rv] || wv == rv) {
+						continue
+					}
+					viaLocal = true
+					answers = append(answers, answer{val, w.Stmt})
 				}
 			}
-			if isNilIdent(r.Results[1]) && !isNilIdent(r.Results[0]) {
-				dataRet = r
+			if !viaLocal {
+				answers = append(answers, answer{r.Results[0], r})
+			}
+		}
+		var emptyAns, dataAns *answer
+		for i := range answers {
+			an := &answers[i]
+			guards := g.GuardsAt(g.VertexOf(an.at))
+			if isNilIdent(an.val) {
+				// start >= len(data), in any spelling: len(data) - (index + 1 - first) <= 0
+				if cp.hasLinAtom(guards, token.LEQ, -1, map[string]int64{"len(dataList.data)": 1, "param(int)": -1, "dataList.first": 1}) {
+					emptyAns = an
+				}
+			} else {
+				dataAns = an
 			}
 		}
 		c.Check(purgedRet != nil, "After:purged-detected", cp, nil, "start < 0 (some requested event was evicted) returns an error wrapping ErrEventsPurged")
 		// ... and nothing is answered before that test: an "empty list, nothing to replay" shortcut in front of it turns
 		// a purge into silence (the consumer resumes with a gap and ids that no longer match the store)
-		for i, r := range cp.Returns() {
-			if len(r.Results) != 2 || !isNilIdent(r.Results[1]) {
-				continue
-			}
-			gs := g.GuardsAt(g.VertexOf(r))
+		for i, an := range answers {
+			gs := g.GuardsAt(g.VertexOf(an.at))
 			c.Check(hasAtom(gs, func(a Atom) bool {
 				x, y, op, ok := binaryCmp(a.E)
 				z, isZ := cp.ConstInt(y)
 				return ok && op == token.LSS && !a.Val && cp.ObjOf(x) == start && isZ && z == 0
-			}), "After:purge-test-before-any-answer#"+itoa(i), cp, r, "every error-free return of After lies behind the start < 0 test (guards: %s)", atomsString(gs))
+			}), "After:purge-test-before-any-answer#"+itoa(i), cp, an.at, "every error-free answer of After lies behind the start < 0 test (guards: %s)", atomsString(gs))
 		}
-		c.Check(emptyRet != nil, "After:nothing-new", cp, nil, "start >= len(data) returns no data")
+		c.Check(emptyAns != nil, "After:nothing-new", cp, nil, "start >= len(data) returns no data")
 		okClone := false
-		if dataRet != nil {
-			okClone = freshSuffixCopy(cp, dataRet.Results[0], dataF, start)
+		var dataRet ast.Node
+		if dataAns != nil {
+			dataRet = dataAns.at
+			okClone = freshSuffixCopy(cp, dataAns.val, dataF, start)
 			gd := g.GuardsAt(g.VertexOf(dataRet))
 			// 0 <= start: -(index + 1 - first) <= 0;  start < len(data): (index + 1 - first) - len(data) + 1 <= 0
 			c.Check(cp.hasLinAtom(gd, token.LEQ, -1, map[string]int64{"param(int)": -1, "dataList.first": 1}) &&
